@@ -195,10 +195,11 @@ func decomposerScenario(ch chain, nQ, nP int) engine.Scenario {
 }
 
 // decomposerTinyScenario: every integer of the tiny 3-prime chain, P = 2 tiny primes (digits {q0·q1},{q2}).
-func decomposerTinyScenario(Q, P []uint64, parts int) engine.Scenario {
-	name := fmt.Sprintf("decompose/Decomposer/tiny-exhaustive/Q=%v/P=%v", Q, P)
+func decomposerTinyScenario(Q, P []uint64, shard, shards int) engine.Scenario {
+	name := fmt.Sprintf("decompose/Decomposer/tiny-exhaustive/Q=%v/P=%v/shard=%d", Q, P, shard)
+	const parts = 2
 	return engine.Scenario{Name: name, Bound: -1, Fn: func(c *engine.Chooser) {
-		part := c.Choose(parts, "part")
+		part := c.Choose(parts, "part")*shards + shard
 		levelQ, levelP := len(Q)-1, len(P)-1
 		nbPi := levelP + 1
 		rQ, rP := mustRing(Q), mustRing(P)
@@ -206,24 +207,24 @@ func decomposerTinyScenario(Q, P []uint64, parts int) engine.Scenario {
 		nDigits := ceilDiv(levelQ+1, nbPi)
 		S := prod(Q).Int64()
 		all := append(append([]uint64{}, Q...), P...)
+		if prod(all).BitLen() > 50 {
+			panic("tiny chain too large for the int64 reference") // basis·residue and the sum must stay below 2^63
+		}
 		M := prod(all).Int64()
 		nPolys := (S + N - 1) / N
-		lo := nPolys * int64(part) / int64(parts)
-		hi := nPolys * int64(part+1) / int64(parts)
+		lo := nPolys * int64(part) / int64(parts*shards)
+		hi := nPolys * int64(part+1) / int64(parts*shards)
 		in := rQ.NewPoly()
 		outQ, outP := make([]ring.Poly, nDigits), make([]ring.Poly, nDigits)
 		for i := range outQ {
 			outQ[i], outP[i] = rQ.NewPoly(), rP.NewPoly()
 		}
-		// CRT basis elements over `all` in int64 (M < 2^40·... fits: checked below)
-		if prod(all).BitLen() > 62 {
-			panic("tiny chain too large for int64 reference")
-		}
-		basis := make([]*big.Int, len(all))
+		// CRT basis elements over `all`, reduced modulo M (int64)
+		basis := make([]int64, len(all))
 		for k, m := range all {
 			Mk := new(big.Int).Quo(prod(all), bi(m))
 			inv := new(big.Int).ModInverse(new(big.Int).Mod(Mk, bi(m)), bi(m))
-			basis[k] = Mk.Mul(Mk, inv)
+			basis[k] = Mk.Mul(Mk, inv).Mod(Mk, prod(all)).Int64()
 		}
 		var h uint64
 		for p := lo; p < hi; p++ {
@@ -245,7 +246,7 @@ func decomposerTinyScenario(Q, P []uint64, parts int) engine.Scenario {
 						D *= int64(q)
 					}
 					// reconstruct the digit over all moduli
-					acc := new(big.Int)
+					acc := int64(0)
 					for k, m := range all {
 						var r uint64
 						if k <= levelQ && ghi-glo >= 2 && glo <= k && k < ghi {
@@ -255,9 +256,9 @@ func decomposerTinyScenario(Q, P []uint64, parts int) engine.Scenario {
 						} else {
 							r = outP[i].Coeffs[k-levelQ-1][j] % m
 						}
-						acc.Add(acc, new(big.Int).Mul(basis[k], bi(r)))
+						acc = (acc + basis[k]*int64(r)) % M
 					}
-					d := acc.Mod(acc, prod(all)).Int64()
+					d := acc
 					if d > M/2 {
 						d -= M
 					}
@@ -282,13 +283,24 @@ func decomposerTinyScenario(Q, P []uint64, parts int) engine.Scenario {
 // ---------------------------------------------------------------------------------------------
 // rlwe.Evaluator.DecomposeNTT / DecomposeSingleNTT
 
+// rlweParams builds (and caches per worker: parameters are immutable) the rlwe parameters for a chain.
 func rlweParams(Q, P []uint64) (rlwe.Parameters, error) {
+	k := fmt.Sprint(Q, P)
+	if p, ok := paramsCache[k]; ok {
+		return p, nil
+	}
 	lit := rlwe.ParametersLiteral{LogN: 4, Q: Q, NTTFlag: true}
 	if len(P) > 0 {
 		lit.P = P
 	}
-	return rlwe.NewParametersFromLiteral(lit)
+	p, err := rlwe.NewParametersFromLiteral(lit)
+	if err == nil {
+		paramsCache[k] = p
+	}
+	return p, err
 }
+
+var paramsCache = map[string]rlwe.Parameters{}
 
 func evaluatorDecomposeScenario(ch chain, nQ, nP int) engine.Scenario {
 	name := fmt.Sprintf("decompose/Evaluator.DecomposeNTT/%s/nQ=%d/nP=%d", ch.name, nQ, nP)
